@@ -30,7 +30,10 @@ def axis_specs(labels, thorough=False):
     valid += [slice(None, None, 0), slice(1, None, -1)]            # don't-care, still executed
     other = 'ZZ' if 'ZZ' not in labels else 'QQ'
     bad = [0, n + 1, -1, other, 1.0, None if False else 2.5, slice(0, None), slice(None, n + 1), slice(other, None),
-           slice(None, other), slice(1.0, None), slice(None, None, 1.5), slice(None, None, 'a'), (1,), [1]]
+           slice(None, other), slice(1.0, None), slice(None, None, 1.5), slice(None, None, 'a'), (1,), [1],
+           # zero and negative bounds lie outside the plate whatever the other bound is (Python's from-the-end convention is not
+           # part of the documented grammar)
+           slice(None, 0), slice(None, -1), slice(-1, None), slice(1, -1), slice(1, 0), slice(None, -2, 2), slice(-2, None, 2)]
     # label / integer confusion
     for x in ('1', 'A', 'a'):
         if x not in labels:
@@ -89,7 +92,10 @@ def selectors_for(rows, cols, thorough=False):
     out += [f"{other}:{cols[0]}", f"{rows[0]}:{other}", f"{rows[0]}:{cols[0]}:{cols[0]}", f":{cols[0]}", f"{rows[0]}:", ':',
             '', (1, 1, 1), (), (slice(None),), 1.0, None, 2.5, {'a': 1}, [f"{rows[0]}"], [1], [(1, 1, 1)], [(slice(None), 1)],
             [None], [f"{other}:{cols[0]}"], [(len(rows) + 1, 1)], [(0, 1)], [], True,
-            (True, 1), [f"{rows[0]}:{cols[0]}", f"{rows[0]}:{cols[0]}"]]
+            (True, 1), [f"{rows[0]}:{cols[0]}", f"{rows[0]}:{cols[0]}"],
+            # a list is refused as a whole when any element is outside the plate or malformed, wherever it stands
+            [f"{rows[0]}:{cols[0]}", (len(rows) + 1, 1)], [(1, 1), f"{rows[-1]}:{cols[-1]}", (1, len(cols) + 1)],
+            [f"{rows[0]}:{cols[0]}", (0, 1)], [(1, 1), None], [(1, 1), f"{other}:{cols[0]}"], [(1, 1), (1, 1, 1)]]
     # fractional numbers are no indices, wherever they stand and whatever their type (a Python float, a numpy scalar that came
     # out of numpy.mean or numpy.linspace); integral numpy scalars are left out: accepting them would be a legitimate extension
     out += [(1.5, 1), (1, 1.5), (numpy.float64(1.5), 1), (1, numpy.float64(1.5)), (numpy.float64(1.25), cols[0]),
@@ -107,11 +113,32 @@ def well_name(rows, cols, r, c):
 def judge(pp, plate, rows, cols, labeling, sel):
     """-> (violation or None, class)"""
     kind_, wells, shape = selectors.resolve(rows, cols, sel)
+    if isinstance(sel, list):
+        # what a list selects does not depend on what was asked before: every list is preceded by a list that is refused at its
+        # SECOND element (its first element is valid) - part of the judged (and replayed) case
+        for prelude in ([f"{rows[0]}:{cols[0]}"],                               # accepted: ends whatever an earlier case left
+                        [f"{rows[0]}:{cols[0]}", (len(rows) + 1, 1)]):          # refused at its second element
+            try:
+                plate[prelude]
+            except Exception:  # noqa
+                pass
     try:
         view = plate[sel]
         got = numpy.asarray(view.get())
         names = [w.name for w in got.flatten()]
         outcome = ('ok', names, tuple(got.shape), int(view.size), tuple(view.shape))
+        if isinstance(sel, list) and kind_ == selectors.OK:
+            # a list selects its wells in the order given - also after the selection has been used
+            try:
+                view.remove()
+            except Exception:  # noqa
+                pass
+            names2 = [w.name for w in numpy.asarray(view.get()).flatten()]
+            if names2 != names:
+                return V(f"Plate.__getitem__ | selection-changed-by-use | form={form(sel)},labeling={labeling}",
+                         f"plate {len(rows)}x{len(cols)}: s = plate[{sel!r}] selected {names}; after s.remove() the same object selects "
+                         f"{names2}", {'rows': rows, 'cols': cols, 'labeling': labeling, 'sel': repr(sel)}, names, names2), \
+                    (labeling, form(sel), kind_, 'changed-by-use')
     except Exception as e:  # noqa
         outcome = ('raises', type(e).__name__)
     cls = (labeling, form(sel), kind_, outcome[0])
